@@ -19,7 +19,15 @@ from .c17 import build as build17
 KINDS = ["mesh", "mesh", "mesh", "points", "path2d", "path3d", "primitive", "scene", "voxel"]
 CLASSES = mx.CLASSES_3D + ["tiny_below", "tiny_above", "rot_below", "rot_above"]
 OPS = ["apply_transform", "apply_scale", "apply_translation", "inverse_pair", "compose_pair", "bad_shape", "read"]
-PREREADS = ["face_normals", "vertex_normals", "mass", "edges", "face_adjacency", "bounds", "area", "triangles", "paths", "discrete", "polygons", "length"]
+PREREADS = ["face_normals", "vertex_normals", "mass", "edges", "face_adjacency", "bounds", "area", "triangles", "paths", "discrete", "polygons", "length",
+            "face_angles", "vertex_defects", "extents", "centroid", "scale", "area_faces", "edges_unique_length", "face_adjacency_angles", "bounding_box", "polygons_closed"]
+# derived values that must equal those of an object freshly built from the transformed arrays (whatever was memoised before the call)
+DERIVED = {
+    "mesh": [("bounds", 1e-9), ("extents", 1e-9), ("centroid", 1e-9), ("area_faces", 1e-9), ("face_angles", 1e-6), ("vertex_defects", 1e-6), ("edges_unique_length", 1e-9), ("face_adjacency_angles", 1e-6)],
+    "path2d": [("bounds", 1e-9), ("extents", 1e-9), ("length", 1e-9), ("area", 1e-9)],
+    "path3d": [("bounds", 1e-9), ("extents", 1e-9), ("length", 1e-9)],
+    "points": [("bounds", 1e-9), ("extents", 1e-9), ("centroid", 1e-9)],
+}
 
 
 def band_matrix(rng, cls):
@@ -382,12 +390,15 @@ class C04(World):
                     fail("face_normals", "differ from the normals of a fresh mesh")
                 if same(np.asarray(o.vertex_normals), np.asarray(fresh.vertex_normals), max(ntol, 1e-6), "vertex_normals"):
                     fail("vertex_normals", "differ from the normals of a fresh mesh")
+                self._check_derived(kind, o, a, max(tol, ntol), scale, fail, ctx, fresh=fresh)
         elif kind == "points":
             if same(a["colors"], b["colors"], 0, "colors") or a["meta"] != b["meta"]:
                 fail("attached", "colours or metadata changed")
+            self._check_derived(kind, o, a, tol, scale, fail, ctx)
         elif kind in ("path2d", "path3d"):
             if a["entities"] != b["entities"] or a["meta"] != b["meta"]:
                 fail("entities", "entities or metadata changed by the transform")
+            self._check_derived(kind, o, a, tol, scale, fail, ctx)
         elif kind == "scene":
             if a["geom"] != b["geom"]:
                 fail("geometry", "Scene.apply_transform modified geometry arrays")
@@ -399,6 +410,40 @@ class C04(World):
                 fail("transform", "VoxelGrid transform is not M . old")
             if same(a["dense"], b["dense"], 0, "dense") or a["shape"] != b["shape"]:
                 fail("encoding", "encoding changed by the transform")
+
+    def _check_derived(self, kind, o, a, tol, scale, fail, ctx, fresh=None):
+        """Bounds, lengths, angles ... equal those of an object freshly built from the arrays the object now holds."""
+        import copy as _copy
+
+        import trimesh
+
+        if fresh is None:
+            if kind in ("path2d", "path3d"):
+                cls = trimesh.path.Path2D if kind == "path2d" else trimesh.path.Path3D
+                fresh = cls(entities=_copy.deepcopy(list(o.entities)), vertices=np.array(a["P"]), process=False)
+            elif kind == "points":
+                if not len(a["P"]):
+                    return
+                fresh = trimesh.PointCloud(np.array(a["P"]))
+            else:
+                return
+        for name, t in DERIVED.get(kind, []):
+            try:
+                want = getattr(fresh, name)
+            except (KeyboardInterrupt, SystemExit, MemoryError):
+                raise
+            except BaseException:
+                continue  # not defined for this object (open path area ...): nothing to compare
+            try:
+                got = getattr(o, name)
+            except (KeyboardInterrupt, SystemExit, MemoryError):
+                raise
+            except BaseException as e:
+                fail("derived-" + name, f"raised {type(e).__name__}: {e} while a fresh object reports it")
+            ctx.count("check:derived-" + name)
+            bad = same(np.asarray(got, dtype=float), np.asarray(want, dtype=float), max(t, tol) * (scale if name in ("bounds", "extents", "centroid", "length", "edges_unique_length") else (scale * scale if name in ("area", "area_faces") else 1.0)), name)
+            if bad:
+                fail("derived-" + name, f"differs from a freshly built object: {bad}")
 
     def _check_primitive(self, o, b, a, M, label, ctx):
         """Every vertex of the regenerated mesh lies on the transformed analytic surface; parameters re-derived."""
